@@ -42,7 +42,8 @@ def gen_fault_spec(rng):
     groups = []
     for i in range(n_env):
         n = weighted(rng, [(4, 1), (12, 2), (26, 2), (30, 2), (45, 2), (60, 1)])
-        g = {"src": ["tagged", {"tag": f"T{i}", "n": n, "n_actions": 2 + rng.randrange(2), "extra": rng.random() < 0.2}], "ops": []}
+        g = {"src": ["tagged", {"tag": f"T{i}", "n": n, "n_actions": 2 + rng.randrange(2), "extra": rng.random() < 0.2,
+                               "ctx_list": rng.random() < 0.4}], "ops": []}
         r = rng.random()
         if r < 0.45:
             g["ops"].append(["chunk", {"cache": rng.random() < 0.85}])
@@ -106,7 +107,7 @@ def add_faults(rng, spec):
             spec["learners"].insert(rng.randrange(len(spec["learners"]) + 1),
                                     ["faulty", {"where": where, "k": weighted(rng, [(0, 2), (1, 1), (rng.randrange(30), 3)]),
                                                 "env_tag": weighted(rng, [(None, 1), (tagged[rng.randrange(len(tagged))], 2)]),
-                                                "tag": f"f{len(spec['learners'])}"}])
+                                                "tag": f"f{len(spec['learners'])}", "same_obj": rng.random() < 0.25}])
         else:
             vi = rng.randrange(len(spec["evaluators"]))
             spec["evaluators"][vi] = ["faultyval", {"inner": spec["evaluators"][vi], "fail_after": weighted(rng, [(0, 1), (rng.randrange(30), 2)]),
@@ -125,7 +126,7 @@ class C03:
     rule = ("one run = one experiment with a sampled sharing pattern (learner / environment / evaluator objects listed in several "
             "triples, shared chunk()/cache() prefixes, shuffle fan-out, cross product or tuple list; simulated or logged data with off-policy evaluators), component failures injected at "
             "sampled positions (environment read at index k incl. around the 25-item cache slice, learner predict/learn at its k-th "
-            "call for a chosen environment, learner params, deep copy of a shared learner, evaluator after k rows; none in even-indexed runs), executed under a "
+            "call for a chosen environment, learner params, deep copy of a shared learner, optionally the very same exception object every time, evaluator after k rows; none in even-indexed runs), executed under a "
             "sampled configuration and seeded schedule, compared triple by triple with the alone-run of each triple on pristine "
             "objects; non-trivial = at least two triples with rows or a fired failure; distinct = distinct event-log digest + spec")
     assumptions = ["injected failures are functions of the component's own local history, so alone and together are comparable",
@@ -139,7 +140,8 @@ class C03:
         spec = gen_fault_spec(rng)
         kinds = add_faults(rng, spec) if index % 2 == 1 else []
         config = X.gen_config(rng) if rng.random() < 0.7 else [1, 0, 0]
-        return {"spec": spec, "config": config, "knobs": X.gen_knobs(rng), "faults": kinds}
+        return {"spec": spec, "config": config, "knobs": X.gen_knobs(rng), "faults": kinds,
+                "result_file": weighted(rng, [(None, 3), ("plain", 1), ("gz", 0.5)])}
 
     def run(self, cfg, seed, choices=None):
         import hashlib, json
@@ -147,10 +149,30 @@ class C03:
         out = {"counters": {}, "trace": [], "decisions": 0, "switches": 0, "sim_s": 0.0}
         # ---- together
         if config == [1, 0, 0]:
+            rf_dir = None
             try:
-                res, objs, log = X.run_inproc(spec, config=tuple(config))
+                if cfg.get("result_file"):
+                    # the together-run writes a result file (the recording stage is part of "every other triple still completes and is recorded")
+                    import os, tempfile
+                    rf_dir = tempfile.mkdtemp(prefix="c03_", dir="/dev/shm" if os.path.isdir("/dev/shm") else None)
+                    res, objs, log = X.run_inproc(spec, result_file=os.path.join(rf_dir, "r.log" + (".gz" if cfg["result_file"] == "gz" else "")), config=tuple(config))
+                    out["counters"]["reach.together_run_with_result_file"] = 1
+                else:
+                    res, objs, log = X.run_inproc(spec, config=tuple(config))
             except Exception as e:
                 return {"digest": "invalid", "trace": [], "nontrivial": False, "violation": None, "counters": {"invalid_spec": 1}, "sample": None}
+            except BaseException as e:
+                if type(e).__name__ in ("SimKill", "KeyboardInterrupt"):
+                    raise
+                # (CobaExit is a BaseException: Experiment.run gave up on the whole experiment)
+                import hashlib, json
+                return {"digest": hashlib.blake2b(json.dumps(cfg, sort_keys=True).encode(), digest_size=16).hexdigest(), "trace": [], "nontrivial": True,
+                        "violation": vio("run_raised", f"Experiment.run (in-process) raised {type(e).__name__}: {str(e)[:300]}"),
+                        "counters": {}, "sample": {"spec": spec, "config": config}}
+            finally:
+                if rf_dir:
+                    import shutil
+                    shutil.rmtree(rf_dir, ignore_errors=True)
             exp_ids = None
             outcome = "done"
             digest_src = "inproc"
